@@ -106,6 +106,6 @@ EXPORT errno_t _strcmpfld_s_chk(const char *dest, rsize_t dmax, const char *src,
         dmax--;
     }
 
-    *resultp = *dest - *src;
+    *resultp = (unsigned char)*dest - (unsigned char)*src;
     return (EOK);
 }
